@@ -67,7 +67,17 @@ def finish(ctx, audit, mod, t0):
 
 def run_known_witnesses(ctx, mod):
     for k in ctx.known:
-        if k.get("status") != "open" or "witness" not in k:
+        if "witness" not in k:
+            continue
+        if k.get("status") != "open":
+            # a repaired defect suppresses nothing: its witness runs as an ordinary corpus case
+            try:
+                mod.replay(ctx, core.unjson(k["witness"]))
+                ctx.hit("corpus:fixed-witness")
+            except InfraError:
+                raise
+            except Exception:
+                ctx.note("fixed_witness_error:" + k["id"], traceback.format_exc()[-800:])
             continue
         before = k["id"] in ctx.known_hits
         try:
